@@ -42,7 +42,7 @@ def check_C05(ctx):
                         'service-level Scan/TxScan option combinations are checked under C19',
                         'running scans: schedules sampled, interleaving at Next-call granularity']
     ctx.kvh()
-    tlc_mc(ctx, 'MC_Iter', 'MC_Iter.cfg' if ctx.quick() else 'MC_Iter_thorough.cfg', timeout=280 if ctx.quick() else 2400)
+    tlc_mc(ctx, 'MC_Iter', 'MC_Iter.cfg' if ctx.quick() else 'MC_Iter_thorough.cfg', timeout=900 if ctx.quick() else 2400)
     n = 150 if ctx.quick() else 1500
     behs = tlc_sim(ctx, 'GEN_Iter', 'GEN_Iter.cfg', n, 60, ctx.seed * 13 + 5, timeout=600)
     corpus_p = os.path.join(os.path.dirname(os.path.dirname(os.path.dirname(__file__))), 'corpus', 'iter.ndjson')
